@@ -75,7 +75,13 @@ int main(int argc, char **argv) {
               for (int fi = 0; fi < 4; fi++) { char *v = strstr(s, fld[fi]); if (!v) continue; size_t a = (size_t) (v - s) + 2, e = a; while (s[e] >= '0' && s[e] <= '9') e++;
                   unsigned long long dv = strtoull(s + a, NULL, 10); char num[4][32];
                   snprintf(num[0], 32, "%llu", dv + 4294967296ULL); snprintf(num[1], 32, "%llu", dv + 3ULL * 4294967296ULL); snprintf(num[2], 32, "1844674407370955%04llu", 1616ULL + dv); snprintf(num[3], 32, "99999999999999999999");
-                  for (int w = 0; w < 4; w++) { if (a + strlen(num[w]) + (L - e) + 1 > sizeof s2) continue; memcpy(s2, s, a); strcpy(s2 + a, num[w]); strcat(s2, s + e); str_case("decimal_out_of_range", s2, pw, pl, ops, mk); } } }
+                  for (int w = 0; w < 4; w++) { if (a + strlen(num[w]) + (L - e) + 1 > sizeof s2) continue; memcpy(s2, s, a); strcpy(s2 + a, num[w]); strcat(s2, s + e); str_case("decimal_out_of_range", s2, pw, pl, ops, mk); }
+                  /* every lexical variant of the decimal: leading zero(s), sign, blanks, empty, hex, trailing letter, zero, +-1 */
+                  { char var[12][40]; int nv = 0;
+                    snprintf(var[nv++], 40, "0%llu", dv); snprintf(var[nv++], 40, "00%llu", dv); snprintf(var[nv++], 40, "+%llu", dv); snprintf(var[nv++], 40, "-%llu", dv);
+                    snprintf(var[nv++], 40, " %llu", dv); snprintf(var[nv++], 40, "%llu ", dv); var[nv++][0] = 0; snprintf(var[nv++], 40, "0x%llx", dv); snprintf(var[nv++], 40, "%llua", dv);
+                    snprintf(var[nv++], 40, "0"); snprintf(var[nv++], 40, "%llu", dv + 1); snprintf(var[nv++], 40, "%llu", dv ? dv - 1 : 0);
+                    for (int w = 0; w < nv; w++) { if (a + strlen(var[w]) + (L - e) + 1 > sizeof s2) continue; memcpy(s2, s, a); strcpy(s2 + a, var[w]); strcat(s2, s + e); str_case("decimal_variant", s2, pw, pl, ops, mk); } } } }
             { char *sl = strchr(s, '/'); if (sl) { memcpy(s2, s, L + 1); s2[sl - s] = (char) 0xff; str_case("slash_to_ff", s2, pw, pl, ops, mk); } }
         }
     }
